@@ -78,7 +78,7 @@ def inline_constants(trees, report):
                 for al in st.names:
                     stable.add((al.asname or al.name).split(".")[0])
         for name, sts in bound.items():
-            if name in known or not name.startswith("_") or name.startswith("__") or len(sts) != 1 or not _literal(sts[0].value, stable):
+            if name in known or name.startswith("__") or name == "__all__" or len(sts) != 1 or not _literal(sts[0].value, stable):
                 continue
             # never rebound elsewhere (global statement, augmented assignment, other stores at module level)
             stores = [n for n in ast.walk(tree) if isinstance(n, ast.Name) and n.id == name and isinstance(n.ctx, (ast.Store, ast.Del))]
@@ -103,6 +103,12 @@ def inline_constants(trees, report):
                         if len(cands) == 1:
                             visible[al.name] = consts[(cands[0], al.name)]
                             origin[al.name] = cands[0]
+        # names that reached this module through an inlined helper of another module
+        here = module_globals(tree)
+        for name, rels in by_mod_tail.items():
+            if name not in visible and name not in here and len(rels) == 1:
+                visible[name] = consts[(rels[0], name)]
+                origin[name] = rels[0]
         if not visible:
             continue
         pm = _parents(tree)
